@@ -95,3 +95,37 @@ theorem sched_postorder (n : Nat) : ∀ (t : ITree), WF n t → ∀ d, Sched n d
       · left; exact hlt
 
 end TT.C01
+
+namespace TT.C01
+
+/-- an internal node is numbered last within its subtree: its index is the advanced counter minus one -/
+theorem setupIdx_node_idx (l r : BTree) (k : Nat) :
+    (setupIdx (.node l r) k).1.idx + 1 = (setupIdx (.node l r) k).2 := rfl
+
+/-- **the dropped branch of `UnRootedTreeModel` is a root branch.**  In a tree with `n` leaves the root
+    gets index `2n−2`; the node with index `2n−3` — the entry `blens[:-1]` drops and `_call` replaces by a
+    zero length — is the right child of the root when that is internal, otherwise the left child. -/
+theorem root_child_last (n : Nat) (l r : BTree) (hn : (BTree.node l r).leaves.length = n) :
+    ∃ il ir, setupIndexes n (.node l r) = .node (2 * n - 2) il ir ∧
+      ((∃ a b, r = .node a b) → ir.idx = 2 * n - 3) ∧
+      ((∃ t, r = .leaf t) → (∃ a b, l = .node a b) → il.idx = 2 * n - 3) := by
+  have hlen := BTree.leaves_length (.node l r)
+  simp only [BTree.internalCount] at hlen
+  obtain ⟨a2, _, _⟩ := setupIdx_spec l n
+  obtain ⟨b2, _, _⟩ := setupIdx_spec r (setupIdx l n).2
+  refine ⟨(setupIdx l n).1, (setupIdx r (setupIdx l n).2).1, ?_, ?_, ?_⟩
+  · show ITree.node (setupIdx r (setupIdx l n).2).2 _ _ = _
+    rw [b2, a2]
+    congr 1
+    omega
+  · rintro ⟨a, b, rfl⟩
+    have h3 := setupIdx_node_idx a b (setupIdx l n).2
+    rw [hn] at hlen
+    omega
+  · rintro ⟨t, rfl⟩ ⟨a, b, rfl⟩
+    have h3 := setupIdx_node_idx a b n
+    rw [hn] at hlen
+    simp only [BTree.internalCount] at hlen a2
+    omega
+
+end TT.C01
